@@ -49,6 +49,9 @@ class CaseEval:
                     return ("const", "bool", "true" if sh == "Some" else "false", 1 if sh == "Some" else 0)
                 if n == "is_none":
                     return ("const", "bool", "true" if sh == "None" else "false", 1 if sh == "None" else 0)
+        if e[0] == "call" and e[4] == "rem" and len(e[2]) == 2 and "Rem" in e[1]:
+            # `<&u32 as Rem<u32>>::rem(p, t)`: the operator on a reference operand
+            return ("bin", "Rem", self.simp(e[2][0]), self.simp(e[2][1]))
         if e[0] == "phi":
             alts = []
             for a in e[1]:
@@ -107,6 +110,23 @@ class CaseEval:
             sh = self.shape(a[1])
             if sh is not None:
                 return sh in a[2]
+            a2 = ("variant", self.simp(a[1]), a[2])
+            subj = a[1]
+            if subj[0] == "call" and subj[4] == "filter" and len(subj[2]) == 2 and "Option" in subj[1]:
+                # opt.filter(pred): None when opt is None; otherwise Some exactly when pred(payload) holds
+                sh = self.shape(subj[2][0])
+                if sh == "None":
+                    return "None" in a[2]
+                if sh == "Some":
+                    from .cfg import closure_apply
+                    body = closure_apply(self.q.w.prog, subj[2][1], [payload(subj[2][0])]) if subj[2][1][0] == "agg" else None
+                    t = self.truth(body) if body is not None else None
+                    if t is not None:
+                        return ("Some" if t else "None") in a[2]
+            for d in self.deciders:
+                r = d(a2)
+                if r is not None:
+                    return r
             return None
         if k == "cmp":
             a = ("cmp", a[1], self.simp(a[2]), self.simp(a[3]))
